@@ -278,14 +278,14 @@ def hooks(stats=None):
 # ---------------------------------------------------------------------------
 COLLIDE = ["add", "add", "short_child", "short_sibling", "addnode", "addnode_other", "copyto_self", "copyto_children", "addtree",
            "move", "move", "remove_keep", "remove_keep_clones", "set_data", "set_data_id", "set_data_group", "rename", "rename", "rename", "from_dict",
-           "from_dict_nested", "tree_from_dict"]
+           "from_dict_nested", "tree_from_dict", "merge_then_add", "merge_then_add"]
 NEAR = ["other_parent", "other_id", "move_same_parent", "move_free", "copy_below_sibling", "keep_own_clone", "keep_free", "merge_groups",
         "set_same", "addnode_free", "from_dict_free", "rename_free"]
 
 
 class Gen03(mut_c01.Gen01):
-    collide_share = 0.72
-    near_share = 0.15
+    collide_share = 0.86
+    near_share = 0.1
 
     def step(self):
         r = self.rng.random()
@@ -542,6 +542,51 @@ class Gen03(mut_c01.Gen01):
             else:
                 d, did = self.data_args(t, s)
                 self.do(["set_data", ti, self.w.rel(caller), d, did, True])
+            return True
+        return False
+
+    def co_merge_then_add(self):
+        """clones of X elsewhere, a node Y under p; X is re-keyed to Y's id with_clones (legal: no X has a Y sibling), then
+        Y's id is placed under p again by add / shortcut / copy - the refusal has to see the ORIGINAL Y node, whatever the
+        re-keying did to the bookkeeping"""
+        w, rng = self.w, self.rng
+        for _ in range(4):
+            x = self.pick_pc()
+            if not x:
+                return False
+            ti, t, p, y = x
+            nodes = walk(t)
+            groups = {}
+            for n in nodes:
+                groups.setdefault(n._data_id, []).append(n)
+            ok = [g for i, g in groups.items() if i != y._data_id and len(g) >= 2
+                  and not any(y._data_id in kid_ids(m._parent) for m in g)]
+            if not ok:
+                # make a clone pair of some other node away from Y's id
+                others = [n for n in nodes if n._data_id != y._data_id]
+                if not others:
+                    return False
+                o = rng.choice(others)
+                qs = [q for q in [t._root] + nodes if o._data_id not in kid_ids(q) and y._data_id not in kid_ids(q)]
+                if not qs:
+                    return False
+                d, did = self.data_args(t, o)
+                self.do(["add", ti, self.ref(t, rng.choice(qs)), d, did, self._kind(ti), None])
+                continue
+            g = rng.choice(ok)
+            d, did = self.data_args(t, y)
+            if rng.random() < 0.5 and isinstance(y._data_id, (int, str)):
+                self.do(["set_data", ti, w.rel(rng.choice(g)), None, y._data_id, True])
+            else:
+                self.do(["set_data", ti, w.rel(rng.choice(g)), d, did, True])
+            how = rng.choice(["add", "add", "short", "addnode"])
+            if how == "add":
+                self.do(["add", ti, self.ref(t, p), d, did, self._kind(ti), self.valid_before(t, p)])
+            elif how == "short":
+                self.do(["short", ti, self.ref(t, p), rng.choice(["append_child", "prepend_child"]), d, did, self._kind(ti)])
+            else:
+                src = rng.choice(g)
+                self.do(["addnode", ti, self.ref(t, p), ti, w.rel(src), None, self._kind(ti), None, None])
             return True
         return False
 
